@@ -28,16 +28,20 @@ import time
 import traceback
 from fractions import Fraction
 
-from vlib.ctx import Infra, TemplateMismatch
+from vlib.ctx import Infra, TemplateMismatch, load_findings
 
 THEOREMS = [
     "Scenic.C02.stableSort_perm",
     "Scenic.C02.optional_only_popped",
     "Scenic.C02.weighted_accept_sound",
     "Scenic.C02.weighted_reject_sound",
+    "Scenic.C02.weighted_rejectExc_sound",
     "Scenic.C02.weighted_no_crash",
     "Scenic.C02.basic_accept_sound",
+    "Scenic.C02.basic_no_crash",
+    "Scenic.C02.generateWith_sound",
     "Scenic.C02.generate_sound",
+    "Scenic.C02.generate_sound_basic",
     "Scenic.C02.generate_rejections_justified",
     "Scenic.C02.generateBatch_sound",
     "Scenic.C02.hard_requirement_always_active",
@@ -94,11 +98,21 @@ def gen_program(rng, force=None):
     """A random Scenic program.  Returns a dict: code, mode2D, names (objects in creation order), reqs (user
     requirements: line, prob, python predicate over a dict name -> sampled object)."""
     mode2d = rng.random() < 0.25
-    flavour = force or rng.choice(["plain", "plain", "plain", "containers", "visibility", "visibility3"])
+    flavour = force or rng.choice(["plain", "plain", "plain", "containers", "containers", "visibility", "visibility3",
+                                   "nested", "static"])
     if flavour.startswith("visibility"):
         mode2d = False
     L = []
+    # a user requirement whose evaluation raises RejectionException beyond a threshold (`checkRequirements` must turn
+    # that into a rejection)
+    guard = rng.random() < 0.2
+    if guard:
+        L += ["def c02_guard(v, t):", "    if v > t:", "        raise RejectionException('c02 guard')", "    return True"]
     half = rng.choice([8, 12, 20])
+    if flavour == "nested":
+        half = rng.choice([5, 6, 8])
+    if flavour == "static":
+        half = rng.choice([12, 20])
     ws = rng.choice(["rect", "rect", "circle", "poly", "none", "box"] if not mode2d else ["rect", "circle", "poly", "none"])
     if flavour == "visibility3":
         ws = "box"
@@ -114,6 +128,8 @@ def gen_program(rng, force=None):
     names, reqs = [], []
     nobj = rng.randint(2, 5) if flavour != "visibility3" else rng.randint(1, 2)
     span = half * rng.choice([0.6, 0.9, 1.05])   # > 1: some samples fall outside the workspace
+    if flavour == "nested":
+        span = half * 0.5
 
     def dims():
         return (fmt(rng.uniform(0.5, 4)), fmt(rng.uniform(0.5, 4)), fmt(rng.uniform(0.5, 2.5)))
@@ -162,7 +178,21 @@ def gen_program(rng, force=None):
         nm = "ego" if i == 0 else f"o{i}"
         w, l, h = dims()
         more = f", with visibleDistance {vd}" if (i == 0 and observer == "ego") else ""
-        L.append(f"{nm} = new Object at {position()}{facing()}, with width {w}, with length {l}, with height {h}{extras(i)}{more}")
+        if flavour == "nested" and i == 0:
+            # one big box; the small ones are sampled in the same area, so candidates with a box strictly inside
+            # another one (no surface contact: invisible to the blanket pre-check) are frequent
+            w, l, h = fmt(rng.uniform(4, 7)), fmt(rng.uniform(4, 7)), fmt(rng.uniform(2, 3.5))
+        elif flavour == "nested":
+            w, l, h = fmt(rng.uniform(0.3, 1.2)), fmt(rng.uniform(0.3, 1.2)), fmt(rng.uniform(0.3, 1))
+        if flavour == "static" and i < nobj - 1:
+            # objects with constant pose and size: checked at compile time by Scenario.validate as well
+            x, y = (i - (nobj - 2) / 2) * 5.5 + rng.choice([0, 0.5]), rng.choice([-3, 0, 3])
+            z = "" if mode2d else ", 0"
+            ex = rng.choice(["", "", ", with allowCollisions True", ", with requireVisible True" if i else ""])
+            L.append(f"{nm} = new Object at ({fmt(x)}, {fmt(y)}{z}), facing {fmt(rng.uniform(0, 360))} deg, "
+                     f"with width {fmt(rng.uniform(0.5, 3))}, with length {fmt(rng.uniform(0.5, 3))}, with height {h}{ex}")
+        else:
+            L.append(f"{nm} = new Object at {position()}{facing()}, with width {w}, with length {l}, with height {h}{extras(i)}{more}")
         names.append(nm)
     if flavour.startswith("visibility"):
         if observer == "pt":
@@ -193,10 +223,12 @@ def gen_program(rng, force=None):
         ("{a}.position.x + {b}.position.y > -5", "o['{a}'].position.x + o['{b}'].position.y > -5"),
         ("abs({a}.position.x) < {c}", "abs(o['{a}'].position.x) < {c}"),
     ]
-    for _ in range(rng.choice([0, 1, 1, 2, 3])):
+    if guard:
+        preds += [("c02_guard({a}.position.x, {c})", "o['{a}'].position.x <= {c}")] * 6
+    for _ in range(rng.choice([0, 1, 1, 2, 3]) + (1 if guard else 0)):
         a, b_ = rng.sample(names, 2) if len(names) >= 2 else (names[0], names[0])
         sc, py = rng.choice(preds)
-        c = fmt(span * 0.8)
+        c = fmt(span * rng.choice([0.8, 0.3]))
         prob = rng.choice([None, None, 0.3, 0.6, 0.9])
         head = "require" if prob is None else f"require[{prob}]"
         L.append(f"{head} {sc.format(a=a, b=b_, c=c)}")
@@ -454,7 +486,7 @@ def _run_program(task):
     rng = random.Random(task["seed"])
     t_start = time.time()
     out = {"id": task["id"], "hist": [], "lines": [], "expect": [], "viol": [], "cases": [], "flavour": prog["flavour"],
-           "scenes": 0, "orders": 0, "notes": []}
+           "scenes": 0, "orders": 0, "notes": [], "tie": []}
     H = out["hist"].append
     random.seed(task["seed"])
     numpy.random.seed(task["seed"] % (2 ** 32))
@@ -553,6 +585,7 @@ def _run_program(task):
                 v = _orig(sample)
             except RejectionException:
                 state["exc"] = True
+                state["cache"][i] = "x"
                 raise
             state["cache"][i] = bool(v)
             return v
@@ -571,6 +604,7 @@ def _run_program(task):
         # (and a disagreement of the orders is itself reported), so they need no value here
         fals = [state["cache"].get(i, False) for i in range(len(allreqs))]
         calls.append({"act": act, "fals": fals, "order": list(state["order"]), "res": None if res is None else str(res)[:60],
+                      "sid": id(sample),
                       "costs": costs, "exc": state["exc"], "durs": list(state["durs"])})
         state["durs"] = []
         check_wrapped.last_sample = sample
@@ -620,15 +654,18 @@ def _run_program(task):
     H(("distinct_orders", min(len(seen_orders), 20)))
 
     # ---------------------------------------------------------------- (C2) the trace through the checker model
-    if calls and not any(c["exc"] for c in calls):
+    if calls:
         optbits = "".join("1" if r.optional else "0" for r in allreqs)
-        bits = lambda bs: "".join("1" if b else "0" for b in bs) or "-"
+        bits = lambda bs: "".join("x" if b == "x" else "1" if b else "0" for b in bs) or "-"
 
         def outcome(c):
             o = ",".join(str(i) for i in c["order"]) or "-"
             if c["res"] is None:
                 return o + "=A"
-            return o + f"=R{c['order'][-1]}" if c["order"] else o + "=R?"
+            if not c["order"]:
+                return o + "=R?"
+            # a RejectionException raised by a requirement and returned by checkRequirements: `E`
+            return o + ("=E" if c["exc"] else "=R") + str(c["order"][-1])
         if weighted:
             given = not variant.startswith("pow2")
             parts = [f"C02 wrun {B} {'g' if given else 'm'} {optbits}"]
@@ -653,27 +690,41 @@ def _run_program(task):
             sel = ",".join(str(pos[id(r)]) for r in creqs) or "-"
             out["lines"].append(" ".join(parts))
             out["expect"].append(("basic", f"sel:{sel} " + " ".join(outcome(c) for c in calls), variant))
-    elif calls:
-        H(("trace", "skipped:rejection-exception-inside-requirement"))
     for c in calls:
-        H(("call", "accept" if c["res"] is None else "reject:" + type(allreqs[c["order"][-1]]).__name__ if c["order"] else "reject"))
+        H(("call", "accept" if c["res"] is None else ("reject-by-exception:" if c["exc"] else "reject:")
+           + type(allreqs[c["order"][-1]]).__name__ if c["order"] else "reject"))
 
     # ---------------------------------------------------------------- (S) every accepted scene, re-verified
     static_occ = [o for o in sc.objects if needsSampling(o.occluding) or o.occluding]
     for si, scene, acc in scenes:
         sample = scene.sample
-        sobjs = {id(o): sample[o] for o in sc.objects}
+        # what is observed is the Scene (its `objects`), which must be the sample the checker accepted
+        same = len(scene.objects) == len(sc.objects) and all(scene.objects[k] is sample[o] for k, o in enumerate(sc.objects))
+        if not same:
+            out["tie"].append(f"scene {si}: Scene.objects are not the objects of Scene.sample")
+        if acc is None or acc.get("sid") != id(sample):
+            out["tie"].append(f"scene {si}: the sample the scene was built from is not the last sample the checker accepted")
+        if acc is not None and acc["res"] is not None:
+            out["viol"].append({"key": "scene-from-rejected-sample", "scene": si,
+                                "what": f"scene {si} was built although the last check returned a rejection ({acc['res']})"})
+        sobjs = {id(o): (scene.objects[k] if same else sample[o]) for k, o in enumerate(sc.objects)}
         byname = {}
-        for nm, o in zip(prog["names"], [o for o in insts if isinstance(o, Object)]):
-            byname[nm] = sample[o]
+        prog_objs = [o for o in insts if isinstance(o, Object)]
+        if len(prog_objs) != len(prog["names"]) or {id(o) for o in prog_objs} != {id(o) for o in sc.objects}:
+            out["tie"].append("Scenario.objects are not the objects the program creates")
+        for nm, o in zip(prog["names"], prog_objs):
+            byname[nm] = sobjs.get(id(o), sample[o])
         # user requirements, evaluated by the generator's own Python predicate
         for rq in prog["reqs"]:
             r = user_by_line.get(rq["line"])
-            if r is None:
-                H(("user_req", "unmatched-line"))
-                continue
-            active = acc["act"][pos[id(r)]] if acc else True
             hard = rq["prob"] == 1
+            if r is None:
+                # the requirement never reached the checker: a hard one must hold all the same
+                H(("user_req", "unmatched-line"))
+                out["tie"].append(f"the requirement on line {rq['line']} is missing from Scenario.userRequirements")
+                active = hard
+            else:
+                active = acc["act"][pos[id(r)]] if acc else True
             if active or hard:
                 try:
                     holds = bool(eval(rq["py"], {"o": byname, "abs": abs}))
@@ -685,10 +736,10 @@ def _run_program(task):
                     out["viol"].append({"key": "user-requirement:" + ("hard" if hard else "soft"), "scene": si,
                                         "what": f"scene {si} violates `{rq['py']}` (line {rq['line']}, prob {rq['prob']}"
                                                 + ("" if active else ", requirement was not even selected") + ")"})
-                if hard and not active:
+                if hard and not active and r is not None:
                     H(("user_req", "hard-not-selected"))
-                    out["viol"].append({"key": "hard-requirement-inactive", "scene": si,
-                                        "what": f"hard requirement on line {rq['line']} was not selected for scene {si}"})
+                    # not by itself a scene violating the property: reported as a broken tie, the search goes on
+                    out["tie"].append(f"scene {si}: the hard requirement on line {rq['line']} was not selected")
             else:
                 H(("user_req", "soft-not-selected"))
         # geometry
@@ -861,19 +912,23 @@ def make_tasks(ctx):
 
 def run_tasks(ctx, tasks):
     nproc = min(ctx.budget(8, 14), os.cpu_count() or 4, len(tasks))
+    if os.environ.get("VERIF_C02_PROCS", "").isdigit():   # development runs on a shared machine
+        nproc = max(1, min(nproc, int(os.environ["VERIF_C02_PROCS"])))
     mp = multiprocessing.get_context("fork")
     deadline = ctx.budget(420, 2400)   # generous: the machine may be shared; the deterministic per-program caps bound the work
     import scenic  # noqa: imported before forking so that the workers do not each pay for the import
     results = []
+    known = load_findings().get(ctx.prop, {})
     # after a broken proof obligation / correspondence this run is a search for one failing input: stop at the first hit
-    stop_at_first = bool(ctx.brokens)
+    # (also when a source fingerprint changed or a translator template no longer matches: the run is then a search too)
+    stop_at_first = bool(ctx.brokens) or bool(ctx.escalated)
     with mp.Pool(nproc, maxtasksperchild=8) as pool:
         it = pool.imap_unordered(run_program, tasks, chunksize=1)
         t0 = time.time()
         for _ in range(len(tasks)):
             try:
                 results.append(it.next(timeout=max(5, deadline - (time.time() - t0))))
-                if stop_at_first and results[-1].get("viol"):
+                if stop_at_first and any(v["key"] not in known for v in results[-1].get("viol", [])):
                     ctx.notes.append(f"failing-input search stopped at the first hit ({len(results)} of {len(tasks)} programs run)")
                     pool.terminate()
                     break
@@ -1039,6 +1094,8 @@ def run(ctx):
             lines.append(ln)
             expect.append(ex)
             owner.append(r["id"])
+        for msg in r.get("tie", [])[:3]:
+            ctx.broken("correspondence", "Scenario / Scene glue vs the program", f"program {r['id']}: {msg}")
         for v in r["viol"]:
             t = by_id[r["id"]]
             rep = {"kind": "scene", "task": t, "scene": v.get("scene"), "what": v["what"], "line": v.get("line")}
